@@ -15,11 +15,11 @@ ANCHORS = ["cyecca/models/bezier.py"]
 MISSING = [
     "EVERY degree and derivative order: theorems of Props/C18G over the hand model Model/Bezier.lean (De Casteljau = Bernstein, end points, "
     "deriv(m).eval = m-th iterated derivative for all n, m <= n), tied to the real class by the correspondence run of this check "
-    "(degrees 1..12, every order, float / integer / list / DM / SX control points) and to the translated programs of degree 3 and 7 by a theorem; "
+    "(degrees 1..12, every order, float / integer / list / DM / SX control points) and PROVED equal to every translated program (degrees 1..7, curve and every derivative order: 35 link theorems); "
     "the tie of the generic model to the class is sampled, not proved",
 ]
 TRUSTED_EXTRA = ["hand model Model/Bezier.lean of Bezier.eval / Bezier.deriv for every degree: tied to the class by differential runs "
-                 "(relative tolerance 1e-11: T**m is a repeated product in the model) and, at degrees 3 and 7, proved equal to the translated program"]
+                 "(relative tolerance 1e-11: T**m is a repeated product in the model) and proved equal to the translated programs of degrees 1..7 (every derivative order)"]
 
 
 def relevant(fn):
